@@ -18,11 +18,12 @@ import (
 // ---- C05: Exchange.GetRangeByHeight yields a verified contiguous run from from+1 or fails ----
 
 type c05P struct {
-	From  uint64      `json:"from"`
-	To    int64       `json:"to"` // signed: degenerate requests may be <= from
-	Chunk uint64      `json:"chunk"`
-	Peers []behaviour `json:"peers"`
-	CtxMs int         `json:"ctx_ms"`
+	From    uint64      `json:"from"`
+	To      int64       `json:"to"` // signed: degenerate requests may be <= from
+	Chunk   uint64      `json:"chunk"`
+	Peers   []behaviour `json:"peers"`
+	CtxMs   int         `json:"ctx_ms"`
+	Metrics bool        `json:"metrics,omitempty"` // client WithMetrics
 }
 
 const c05ReqTimeout = time.Second
@@ -75,7 +76,7 @@ func TestC05(t *testing.T) {
 		chunk := chunks[rng.Intn(len(chunks))]
 		ln := 1 + rng.Intn(int(min(3*chunk, 40)))
 		from := 2 + uint64(rng.Intn(20))
-		p := c05P{From: from, To: int64(from) + int64(ln) + 1, Chunk: chunk, CtxMs: []int{6000, 6000, 6000, 250}[rng.Intn(4)]}
+		p := c05P{From: from, To: int64(from) + int64(ln) + 1, Chunk: chunk, CtxMs: []int{6000, 6000, 6000, 250}[rng.Intn(4)], Metrics: i%5 == 4}
 		np := 1 + rng.Intn(5)
 		for j := 0; j < np; j++ {
 			b := behaviour{Kind: c05Kinds[rng.Intn(len(c05Kinds))], K: rng.Intn(4), DelayMs: []int{0, 5, 40}[rng.Intn(3)]}
@@ -99,8 +100,11 @@ func c05Run(c *mon.Case, p c05P) {
 	c.Bubble(func() {
 		chain := chainOf(128)
 		trusted := []int{1}
-		cw := newClientWorld(c, chain, p.Peers, trusted,
-			p2p.WithRequestTimeout[p2p.ClientParameters](c05ReqTimeout), p2p.WithMaxHeadersPerRangeRequest[p2p.ClientParameters](p.Chunk))
+		copts := []p2p.Option[p2p.ClientParameters]{p2p.WithRequestTimeout[p2p.ClientParameters](c05ReqTimeout), p2p.WithMaxHeadersPerRangeRequest[p2p.ClientParameters](p.Chunk)}
+		if p.Metrics {
+			copts = append(copts, p2p.WithMetrics[p2p.ClientParameters]())
+		}
+		cw := newClientWorld(c, chain, p.Peers, trusted, copts...)
 		defer cw.close()
 		from := chain.At(p.From)
 		ctx, cancel := context.WithTimeout(context.Background(), time.Duration(p.CtxMs)*time.Millisecond)
